@@ -9,14 +9,20 @@
 package main
 
 import (
+	"context"
+	"encoding/binary"
 	"fmt"
+	"net"
 	"runtime"
 	"sync"
 	"sync/atomic"
 	"time"
 
+	"github.com/TarsCloud/TarsGo/tars/protocol"
 	"github.com/TarsCloud/TarsGo/tars/util/gpool"
+	"github.com/TarsCloud/TarsGo/tars/util/rogger"
 
+	"verif/netlab"
 	"verif/vlib"
 )
 
@@ -451,9 +457,92 @@ func scenarioRacingRelease(c cfg, trial int) {
 	run.Distinct(fmt.Sprintf("D|%s|sub%d", c, submittedN.Load()/16))
 }
 
+// ---------- scenario E: the pool as the transport handlers use it ----------
+
+type gateProto struct {
+	mu    sync.Mutex
+	count map[uint32]int
+	gate  chan struct{}
+}
+
+func (p *gateProto) ParsePackage(b []byte) (int, int) { return protocol.TarsRequest(b) }
+func (p *gateProto) Invoke(ctx context.Context, pkg []byte) []byte {
+	id := binary.BigEndian.Uint32(pkg[4:])
+	p.mu.Lock()
+	p.count[id]++
+	p.mu.Unlock()
+	<-p.gate
+	return netlab.Frame(pkg[4:8])
+}
+func (p *gateProto) InvokeTimeout(pkg []byte) []byte { return netlab.Frame([]byte("T")) }
+func (p *gateProto) GetCloseMsg() []byte             { return netlab.Frame([]byte("C")) }
+func (p *gateProto) DoClose(ctx context.Context)     {}
+
+// scenarioTransport: a real TarsServer with MaxInvoke workers and a tiny queue receives a burst of
+// n requests while every handler is gated: the receive loop is the submitter and may only block,
+// never drop; after the gates open every request must have been handled exactly once.
+func scenarioTransport(proto string, workers, queue, n, trial int) {
+	p := &gateProto{count: map[uint32]int{}, gate: make(chan struct{})}
+	conf := netlab.DefaultServerConf(proto)
+	conf.MaxInvoke = int32(workers)
+	conf.QueueCap = queue
+	if _, err := netlab.StartServer(p, conf); err != nil {
+		run.Inconclusive("transport scenario: cannot start server")
+		return
+	}
+	c, err := net.DialTimeout(proto, conf.Address, 3*time.Second)
+	if err != nil {
+		run.Inconclusive("transport scenario: dial failed")
+		return
+	}
+	defer c.Close()
+	for i := 0; i < n; i++ {
+		b := make([]byte, 4)
+		binary.BigEndian.PutUint32(b, uint32(i))
+		if _, err := c.Write(netlab.Frame(b)); err != nil {
+			break
+		}
+		if proto == "udp" {
+			time.Sleep(300 * time.Microsecond)
+		}
+	}
+	// all workers busy, queue full, the receive loop blocked on the submit: now let everything run
+	time.Sleep(time.Duration(20+trial%20) * time.Millisecond)
+	close(p.gate)
+	ok := waitUntil(func() bool {
+		p.mu.Lock()
+		defer p.mu.Unlock()
+		return len(p.count) >= n
+	}, 5*time.Second)
+	p.mu.Lock()
+	defer p.mu.Unlock()
+	wit := map[string]interface{}{"scenario": "transport-burst", "proto": proto, "workers": workers, "queue": queue, "requests": n, "handled": len(p.count)}
+	if !ok {
+		var missing []int
+		for i := 0; i < n; i++ {
+			if p.count[uint32(i)] == 0 {
+				missing = append(missing, i)
+			}
+		}
+		wit["never_handled"] = missing
+		run.Violation("job-lost", "transport-"+proto, fmt.Sprintf("%s server (MaxInvoke=%d, QueueCap=%d): %d of %d requests received in a burst were never handled (first missing: %v): the receive loop dropped jobs instead of blocking on the full queue", proto, workers, queue, n-len(p.count), n, missing[:min(len(missing), 5)]), wit)
+		return
+	}
+	for id, k := range p.count {
+		if k != 1 {
+			run.Violation("job-executed-not-once", "transport-"+proto, fmt.Sprintf("request %d handled %d times", id, k), wit)
+			return
+		}
+	}
+	run.Eval(1)
+	run.Add("jobs_observed", int64(n))
+	run.Distinct(fmt.Sprintf("E|%s|w%d|q%d|n%d", proto, workers, queue, n))
+}
+
 func main() {
 	run = vlib.Start("C19")
-	run.SetRule("configurations workers{1,2,8,64} x queue{0,1,16,1024} x submitters{1,8,64}; scenarios: A throughput (every job once, gauge<=workers, idle Release returns, no goroutine left), B capacity (workers+1+queue gated submissions complete without a gate opening), C Release with gated running jobs and 0/1/many backlog (stamp order), D Release racing with submitters. A case is (scenario, configuration, observed high-water mark / executed count); distinct by that key.")
+	rogger.SetLevel(rogger.OFF)
+	run.SetRule("configurations workers{1,2,8,64} x queue{0,1,16,1024} x submitters{1,8,64}; scenarios: A throughput (every job once, gauge<=workers, idle Release returns, no goroutine left), B capacity (workers+1+queue gated submissions complete without a gate opening), C Release with gated running jobs and 0/1/many backlog (stamp order), D Release racing with submitters, E bursts of requests into real TCP/UDP servers whose pool (MaxInvoke 1..4, QueueCap 0..2) is saturated by gated handlers (the receive loop is the submitter: block, never drop). A case is (scenario, configuration, observed high-water mark / executed count); distinct by that key.")
 	run.Assume("jobs still queued when Release is called may be dropped (the property speaks about an unreleased pool)")
 	run.Assume("goroutine accounting: Release 'stops all workers' is observed as runtime.NumGoroutine returning to its value before NewPool (polled up to 5 s)")
 	reps := run.Pick(1, 12)
@@ -489,6 +578,14 @@ func main() {
 			}
 		}
 	}
+	for rep := 0; rep < run.Pick(2, 10); rep++ {
+		for _, proto := range []string{"tcp", "udp"} {
+			for _, wq := range [][2]int{{1, 1}, {1, 0}, {2, 1}, {4, 2}} {
+				trial++
+				scenarioTransport(proto, wq[0], wq[1], 10+4*rep, trial)
+			}
+		}
+	}
 	run.Sample(map[string]interface{}{"scenario": "C release-with-running-jobs", "config": "workers=2 queue=16", "events": "submit 2 gated + 1 held by dispatcher + 4 queued; Release called; gates opened; stamps: end(job0), end(job1) < return(Release); no start stamp after it"})
 	run.Sample(map[string]interface{}{"scenario": "B capacity", "config": "workers=8 queue=1", "events": "10 gated submissions complete with all gates closed; gauge high-water 8"})
 	run.Set("logical_clock_events", clock.Load())
@@ -502,8 +599,8 @@ func main() {
 				continue
 			}
 			seen[rr.Key()] = true
-			if rr.Touches("/tars/util/gpool/") {
-				run.Violation("data-race", "gpool", "race detector report with an accessing frame in gpool", map[string]interface{}{"report": rr.Text})
+			if rr.TouchesBoth("/tars/util/gpool/") {
+				run.Violation("data-race", "gpool", "race detector report with both racing accesses in gpool (pool-internal state)", map[string]interface{}{"report": rr.Text})
 			} else {
 				other++
 			}
